@@ -52,6 +52,28 @@ PROPS = {
         "trusted_base": SCEN_TB,
         "assumptions": ["promptness clause not proved (partial)"],
     },
+    "C03": {
+        "theorems": ["NLE.Theorems.C03", "NLE.Theorems.C15"],
+        "models": ["HB"],
+        "modes": scen("faults", "slowhb", "tamper", "takeover", "vacancy", "conn"),
+        "level": "proof",
+        "claim": "Theorems about the heartbeat loop's decision logic and schedule (constants, time-out rule and error classification regenerated from the source): a refused refresh (wrong last sequence / key not found) is permanent and demotes at the completion of that attempt, at most H+2T after the change; transient failures and time-outs demote at exactly the third in a row, whose completion is at most 3·max(T,H)+T after the start of the last successful refresh, hence within the documented 3H+3T whenever T <= 3H. For H < 333 ms the documented bound is false of code and model (known finding F25: proved counterexample schedule + replay). The schedule assumptions (attempt k+1 is issued at the next tick or immediately after an overrunning attempt; time-out T) and every decision are checked against every trace by the acceptor HB.step.",
+        "design_ref": "§6 C03",
+        "rule": "fault from attempt k on (immediate error, hang until time-out, acknowledgement lost, partition, crash), record replaced/deleted/expired underneath, (H,TTL) incl. H < 333 ms with slow refreshes; distinct non-trivial = (scenario, trigger) pairs with a refused refresh, a failed attempt or a third failure",
+        "trusted_base": [t.replace("NLE/Model/Own.lean", "NLE/Model/HB.lean") for t in SCEN_TB],
+        "assumptions": ["no health checker or healthy checks (a health check delays the refresh by up to 100 ms)", "T <= 3H for the documented bound of clause (b)"],
+    },
+    "C12": {
+        "theorems": ["NLE.Theorems.C12"],
+        "models": ["HB", "Life"],
+        "modes": scen("health", "healthrace"),
+        "level": "proof",
+        "claim": "Theorem: for every threshold m >= 1 (0 means the regenerated default 3) and every sequence of health results of a term, the loop demotes at tick n iff n is the first tick at which the last m results are all unhealthy (never after fewer; a healthy result restarts the count), proved via the loop's counter = number of trailing unhealthy results. Each term starts with count 0 and every check gets a context that expires within the regenerated 100 ms: both checked on every trace by the acceptor HB.step (a demotion the model decides must show as a cleared flag at that instant, a check deadline above the limit is rejected).",
+        "design_ref": "§6 C12",
+        "rule": "scripted HealthChecker: random sequences of healthy / unhealthy / slow results with runs around the threshold, thresholds 0..5, several terms per instance (demotion, expiry, re-election), second instance competing; distinct non-trivial = (scenario, trigger) pairs with health results or a health demotion",
+        "trusted_base": [t.replace("NLE/Model/Own.lean", "NLE/Model/HB.lean") for t in SCEN_TB],
+        "assumptions": ["the checker returns within its deadline"],
+    },
     "C08": {
         "theorems": ["NLE.Theorems.C08"],
         "models": ["Life"],
